@@ -92,3 +92,31 @@ Theorem C20_seek_too_early : forall me (f : qfile) ts,
   seek_ts me f ts = TooEarly.
 Proof. exact seek_too_early. Qed.
 Print Assumptions C20_seek_too_early.
+
+(** C20_two_files, seek part.  Files oldest first, each non-empty, under 2^63
+    bytes, lines shorter than [me], non-zero stamps ([file_ok]).  Seeking a
+    stamp present in file [i] (sorted; every newer file lies wholly after the
+    stamp) succeeds after passing over the newer files; after the skip of the
+    found line, reading on returns the older lines of that file and then the
+    older files, newest first. *)
+Theorem C20_two_files_seek_present : forall me buf (fs : list qfile) i f t l ts,
+  0 < me <= buf -> Forall (file_ok me) fs ->
+  nth_error fs i = Some f -> sorted_ts f -> nth_error f t = Some (l, ts) ->
+  (forall j f', (i < j)%nat -> nth_error fs j = Some f' -> all_newer ts f') ->
+  exists r' r'' x, reader_seek_ts me ts (new_reader fs) = (RFound, r') /\
+    reader_read_next me buf r' = (Some x, r'') /\
+    forall fuel, (length (tagged i (firstn t f) ++ all_rev_upto i fs) < fuel)%nat ->
+      reader_read_all me buf fuel r'' = tagged i (firstn t f) ++ all_rev_upto i fs.
+Proof. exact reader_seek_present. Qed.
+Print Assumptions C20_two_files_seek_present.
+
+(** A stamp newer than everything in the newest file (e.g. between the files
+    and the memory buffer): the reader falls back to the newest end and then
+    reads everything. *)
+Theorem C20_two_files_seek_newer : forall me buf (fs : list qfile) n f ts,
+  0 < me <= buf -> Forall (file_ok me) fs -> length fs = S n ->
+  nth_error fs n = Some f -> all_older ts f ->
+  exists r', reader_seek_ts me ts (new_reader fs) = (RFellBack, r') /\
+    forall fuel, (length (all_rev fs) < fuel)%nat -> reader_read_all me buf fuel r' = all_rev fs.
+Proof. exact reader_seek_newer. Qed.
+Print Assumptions C20_two_files_seek_newer.
